@@ -7,7 +7,7 @@
 (*  case(sources, maxentries)   a new Shell; sources: name -> entries      *)
 (*  session(start)              a new Readline call; start = buffer at its *)
 (*                              first wait (held / inferred line or empty) *)
-(*  nav(cmd, kind, delta, pre, cur, stext, post, srcsame)                  *)
+(*  nav(cmd, kind, delta, pre, cur, stext, post, rx, srcsame)              *)
 (*       a history command ran: kind "walk" (delta = +n / -n, or 0 when    *)
 (*       the amount is not tracked), "prefix" / "substr" (search), "other" *)
 (*       pre/post = buffer before/after, stext = the search text, srcsame  *)
@@ -53,7 +53,11 @@ TSession == /\ Is("session") /\ pos' = 0 /\ typed' = Ev.start /\ tcur' = Len(Ev.
 
 \* remember what the user leaves behind when a navigation command moves away: <<typed, edited, loose>>
 Leave(pre) == IF pos = 0 THEN <<pre, edited, loose>>
-              ELSE IF pos > 0 /\ pre # Entries[N - pos + 1] THEN <<typed, (N - pos + 1 :> pre) @@ edited, loose>>
+              ELSE IF pos > 0 /\ pre # Entries[N - pos + 1]
+                   THEN \* (an earlier edited form of the same entry is kept as a possible form: which of the forms the user
+                        \*  left behind comes back is not this property's business)
+                        <<typed, (N - pos + 1 :> pre) @@ edited,
+                          IF (N - pos + 1) \in DOMAIN edited THEN loose \cup {edited[N - pos + 1]} ELSE loose>>
               ELSE IF pos < 0 THEN <<typed, edited, loose \cup {pre}>>
               ELSE <<typed, edited, loose>>
 
@@ -66,11 +70,18 @@ TNav ==
          lo == lv[3]
          tc == IF pos = 0 THEN Ev.cur ELSE tcur
          \* the text a prefix / substring search looks for: the text before the cursor, in the line shown or in the typed line
-         tpre == IF tc < Len(ty) THEN SubSeq(ty, 1, tc) ELSE ty
+         tpre == IF tc >= 0 /\ tc < Len(ty) THEN SubSeq(ty, 1, tc) ELSE ty
          ShownE(k) == LET i == N - k + 1 IN IF i \in DOMAIN ed THEN ed[i] ELSE Entries[i]
          AnyE == { Entries[i] : i \in 1..N } \cup { ed[i] : i \in DOMAIN ed } \cup lo
      IN
-     IF Ev.kind = "fetch" /\ N > 0
+     IF Ev.kind = "infer"
+     THEN \* infer-next-history: the entry that follows a match of the buffer replaces the buffer WHERE THE USER IS (the
+          \* position does not move): on the typed line it becomes the text being typed
+          /\ Ev.post = Ev.pre \/ Ev.post \in { Entries[i] : i \in 1..N }
+          /\ typed' = IF pos = 0 THEN Ev.post ELSE typed
+          /\ tcur' = IF pos = 0 THEN Len(Ev.post) ELSE tcur
+          /\ UNCHANGED <<pos, edited, loose>>
+     ELSE IF Ev.kind = "fetch" /\ N > 0
      THEN \* fetch-history without argument: the oldest entry, whatever the position was
           /\ Ev.post = ShownE(N) \/ Ev.post = Entries[1] \/ Ev.post \in lo
           /\ pos' = N /\ typed' = ty /\ tcur' = tc /\ edited' = ed /\ loose' = lo
@@ -91,13 +102,19 @@ TNav ==
              \/ /\ Ev.post \in AnyE
                 \* (the match is asserted for searches started from a tracked position; after commands whose effect on
                 \*  the position is not tracked only membership is checked - stated limit of this oracle)
-                /\ (pos >= 0 /\ Ev.kind = "prefix") => (IsPrefix(Ev.stext, Ev.post) \/ IsPrefix(tpre, Ev.post))
-                /\ (pos >= 0 /\ Ev.kind = "substr") => (IsSubstr(Ev.stext, Ev.post) \/ IsSubstr(tpre, Ev.post))
+                \* (tc < 0: the cursor in the typed line is not known, see below)
+                /\ (pos >= 0 /\ Ev.kind = "prefix") => (IsPrefix(Ev.stext, Ev.post) \/ tc < 0 \/ IsPrefix(tpre, Ev.post))
+                \* (rx: the incremental search matches its text as a regular expression; the harness projection evaluates it)
+                /\ (pos >= 0 /\ Ev.kind = "substr") => (IsSubstr(Ev.stext, Ev.post) \/ Ev.rx \/ tc < 0 \/ IsSubstr(tpre, Ev.post))
           \* where we are now: unchanged text that is not a stored entry = did not move; the typed text (and no
           \* entry looks like it) = position 0; otherwise some entry, position not tracked
-          /\ pos' = IF Ev.post = Ev.pre /\ Ev.post \notin AnyE THEN pos
-                    ELSE IF Ev.post = ty /\ Ev.post \notin AnyE THEN 0 ELSE -1
-          /\ typed' = ty /\ tcur' = tc /\ edited' = ed /\ loose' = lo
+          /\ LET p2 == IF Ev.post = Ev.pre /\ Ev.post \notin AnyE THEN pos
+                       ELSE IF Ev.post = ty /\ Ev.post \notin AnyE THEN 0 ELSE -1
+             IN /\ pos' = p2
+                \* the position is no longer tracked: the user may still be (or be back) on the typed line, where the cursor
+                \* can move without this specification noticing - it is unknown until the typed line is left again
+                /\ tcur' = IF p2 < 0 THEN -1 ELSE tc
+          /\ typed' = ty /\ edited' = ed /\ loose' = lo
   /\ UNCHANGED <<srcs, maxe>>
 
 \* an ordinary edit: at position 0 it changes the text being typed
@@ -126,7 +143,9 @@ TAccepted ==
   \* entries may have been appended: edited forms are keyed by absolute index, they stay; a history line that was
   \* edited and then accepted keeps its edited form as well (as in GNU readline without revert-all-at-newline)
   /\ edited' = IF pos > 0 /\ pos <= N /\ Ev.line # Entries[N - pos + 1] THEN (N - pos + 1 :> Ev.line) @@ edited ELSE edited
-  /\ loose' = IF pos < 0 THEN loose \cup {Ev.line} ELSE loose
+  /\ loose' = IF pos < 0 THEN loose \cup {Ev.line}
+              ELSE IF pos > 0 /\ pos <= N /\ (N - pos + 1) \in DOMAIN edited THEN loose \cup {edited[N - pos + 1]}   \* earlier form kept as possible
+              ELSE loose
   /\ pos' = 0 /\ typed' = <<>> /\ tcur' = 0 /\ UNCHANGED maxe
 
 TNext == TCase \/ TSession \/ TNav \/ TEdit \/ TAccepted
